@@ -92,6 +92,12 @@ def cases(tier, seed):
             R = pat.RND(5, 40, rng, max_len=4)
             for i in range(20):
                 add(cfg, R[2 * i], R[2 * i + 1])
+    # generator names that are hex LETTERS (ea, eb, eab ...): symbol names of code generation then contain letters only
+    for cfg in (dict(p=2, start_index=10), dict(p=1, q=1, start_index=11), dict(p=2, r=1, start_index=10), dict(p=3, start_index=12)):
+        dd = sum(v for k, v in cfg.items() if k in 'pqr')
+        P = pat.EXH(2) if dd == 2 else pat.RND(3, 40, rng, max_len=4)
+        for _ in range(25 if tier == 'quick' else 150):
+            add(cfg, rng.choice(P), rng.choice(P))
     # option slices
     for opt in (dict(cse=False), dict(symbolcls='sympy'), dict(wrapper='identity')):
         for base in (dict(p=2), dict(p=1, q=1), dict(p=2, r=1)):
